@@ -475,10 +475,11 @@ def gen_joint(rng, T, pool, stateful):
     n = rng.randrange(3, 7)
     calls = []
     seeds = rng.sample(range(0, 200), n)
+    # 16 permutation tables (128 MB, 0.6 s to build) per terrain graph: at most one per group, in about a third of the groups
+    terrain_ok = rng.random() < 0.35
     for i in range(n):
         op = rng.choice(pool)
-        if op == "generate_terrain" and (any(c["op"] == op for c in calls) or rng.random() < 0.5):
-            # 16 permutation tables (128 MB, 0.6 s) per terrain graph: at most one per group
+        if op == "generate_terrain" and (not terrain_ok or any(c["op"] == op for c in calls)):
             op = rng.choice([o for o in pool if o != op] or [op])
         c = gen_case(rng, T, op)
         if "seed" in c["params"]:
@@ -587,7 +588,10 @@ def run(r, scale=1):
     for op in T:
         for _ in range(per_op):
             check_case(r, T, gen_case(r.rng, T, op))
+    import time
+    t0 = time.time()
     joint_stream(r, T, n_stateful=(4 if quick else 20) * scale, n_mixed=(6 if quick else 40) * scale, rounds=2 if quick else 3)
+    r.extra["joint_stream_seconds"] = round(time.time() - t0, 1)
     if not quick:
         # every chunk composition of every shape up to 4x4 for the stencil / kernel operations
         r.exhaustive = True
